@@ -114,7 +114,8 @@ def c08(run, drv, rng, ncases):
                     run.count("zero_growth_bins")
             c = rng.choice([0.25, 3.0, 10.0])
             S2 = gen.rate(wp.with_density(spec, c * E), wp.da(speed), wp.da(wdir), roughness_length=wp.da(z0), wind_speed_input_type=wtype).values
-            if not np.allclose(S2, c * S, rtol=1e-12, atol=0):
+            # (values in the denormal range, where growth rates underflow, carry no relative precision)
+            if not np.allclose(S2, c * S, rtol=1e-12, atol=1e-280):
                 run.violation("at fixed roughness length the wind input is not proportional to the variance density", dict(info, c=c))
             Sb = gen.bulk_rate(spec, wp.da(speed), wp.da(wdir), roughness_length=wp.da(z0), wind_speed_input_type=wtype).values
             want = np.einsum("pfd,f,d->p", S, df, dth)
